@@ -33,10 +33,10 @@ var c09Base = time.Date(2022, 3, 1, 12, 0, 0, 0, time.UTC)
 
 type c09Clock struct{ ns atomic.Int64 }
 
-func (c *c09Clock) Now() time.Time        { return c09Base.Add(time.Duration(c.ns.Load())) }
-func (c *c09Clock) Off() int64            { return c.ns.Load() }
-func (c *c09Clock) Set(off int64)         { c.ns.Store(off) }
-func (c *c09Clock) Add(d time.Duration)   { c.ns.Add(int64(d)) }
+func (c *c09Clock) Now() time.Time      { return c09Base.Add(time.Duration(c.ns.Load())) }
+func (c *c09Clock) Off() int64          { return c.ns.Load() }
+func (c *c09Clock) Set(off int64)       { c.ns.Store(off) }
+func (c *c09Clock) Add(d time.Duration) { c.ns.Add(int64(d)) }
 func c09Install() (*c09Clock, func()) {
 	old := nowFunc
 	c := &c09Clock{}
